@@ -340,6 +340,8 @@ fn mutate_csv(rng: &mut Rng, text: &str) -> (String, String) {
             "bad-number"
         }
         4 => {
+            // aimed at the column that holds selector kinds, when the header names one
+            let c = rows[0].iter().position(|h| h == "SelectorType").filter(|k| *k < rows[r].len()).unwrap_or(c);
             rows[r][c] = (*rng.pick(&["TextSelector;TextSelector", "MultiSelector", "CompositeSelector;TextSelector", "DataKeySelector", "AnnotationDataSelector", "RangedTextSelector", "Nonsense", "DirectionalSelector;AnnotationSelector;TextSelector", "InternalRangedSelector", "internalrangedselector", "InternalRangedSelector;TextSelector", "CompositeSelector;InternalRangedSelector", "textselector", "Annotation"])).to_string();
             "selector-kind-list"
         }
@@ -654,7 +656,7 @@ pub fn run(p: &Params, rep: &mut Report) {
         "time proportional to the input is judged on the CPU time of the loading thread with a bound of 2 s + 1 ms per byte per input; 180 s of wall clock without answer makes the run inconclusive".into(),
         "a child that dies is attributed to the input it had announced (START line flushed before each input)".into(),
     ];
-    let total: u64 = if p.thorough { 4000 } else { 100 };
+    let total: u64 = if p.thorough { 4000 } else { 600 };
     let mut inputs = Vec::new();
     for k in p.cases(total) {
         rep.cases += 1;
